@@ -2,6 +2,7 @@ package models
 
 import (
 	"fmt"
+	"math"
 
 	"github.com/google/uuid"
 )
@@ -423,6 +424,11 @@ type SearchFloatOptions struct {
 }
 
 func (o SearchFloatOptions) Validate() error {
+	// Not a number compares false with every stored value and has no place
+	// in the order of the index keys. A MessagePack body can carry it.
+	if math.IsNaN(o.Value) || math.IsNaN(o.EndValue) {
+		return fmt.Errorf("float query value cannot be NaN")
+	}
 	switch o.Operator {
 	case OperatorEquals, OperatorNotEquals:
 	case OperatorGreaterThan, OperatorGreaterOrEq:
